@@ -407,6 +407,10 @@ bool AnalyserModel::areEquivalentVariables(const VariablePtr &variable1,
     //       would need more bits than uintptr_t has to offer, i.e. it would
     //       wrap around for real addresses and no longer be unique.
 
+    if ((variable1 == nullptr) || (variable2 == nullptr)) {
+        return false;
+    }
+
     auto v1 = reinterpret_cast<uintptr_t>(variable1.get());
     auto v2 = reinterpret_cast<uintptr_t>(variable2.get());
     std::pair<uintptr_t, uintptr_t> key = std::minmax(v1, v2);
